@@ -11,6 +11,8 @@ from .model import AnalysisError
 
 VERIF_DIR = os.path.dirname(os.path.dirname(os.path.abspath(__file__)))
 KNOWN_PATH = os.path.join(VERIF_DIR, "known_findings.json")
+# the self-test runner points the same code at scratch copies and redirects its output files
+OUT_DIR = os.environ.get("VSTATIC_OUT") or VERIF_DIR
 
 TRUSTED_BASE = [
     "CPython semantics of struct, dict (insertion order, last assignment wins), filter/map (lazy, order- and "
@@ -166,8 +168,8 @@ class Run:
             "wall_s": round(time.time() - self.t0, 3),
             "violations": len(unlisted),
         }
-        os.makedirs(os.path.join(VERIF_DIR, "evidence"), exist_ok=True)
-        path = os.path.join(VERIF_DIR, "evidence", f"{self.prop}.json")
+        os.makedirs(os.path.join(OUT_DIR, "evidence"), exist_ok=True)
+        path = os.path.join(OUT_DIR, "evidence", f"{self.prop}.json")
         tmp = path + ".tmp"
         with open(tmp, "w") as fd:
             json.dump(ev, fd, indent=1, default=str)
@@ -177,8 +179,8 @@ class Run:
         for rule, c in sorted(self.per_rule.items()):
             print(f"  rule {rule}: {c['discharged']}/{c['obligations']} instances hold")
         if unlisted:
-            os.makedirs(os.path.join(VERIF_DIR, "replay"), exist_ok=True)
-            rpath = os.path.join(VERIF_DIR, "replay", f"{self.prop}-{self.tier}.json")
+            os.makedirs(os.path.join(OUT_DIR, "replay"), exist_ok=True)
+            rpath = os.path.join(OUT_DIR, "replay", f"{self.prop}-{self.tier}.json")
             with open(rpath, "w") as fd:
                 json.dump({"property": self.prop, "tier": self.tier, "repo": self.repo_root,
                            "violations": [f.to_json() for f in unlisted]}, fd, indent=1, default=str)
